@@ -9,7 +9,12 @@ package main
 
 import (
 	"fmt"
+	"go/ast"
+	"go/types"
 	"sort"
+	"strings"
+
+	"golang.org/x/tools/go/types/typeutil"
 
 	"golang.org/x/tools/go/ssa"
 )
@@ -139,4 +144,128 @@ func lazyStateInitialisedFirst(c *Ctx) {
 	if n == 0 {
 		c.okTrivial(R, "module", "-", "no lazily initialised package state outside its initialiser")
 	}
+}
+
+// oneRegistryLookupPerOperation (C17): a write (or parse) resolves its driver once. An operation
+// that looks the registry up again between its phases can be handed a different driver — or none —
+// by a registration that lands in between: the document serialized by one driver is rendered by
+// another, which no sequential order of the calls produces.
+func oneRegistryLookupPerOperation(c *Ctx) {
+	const R = "one-registry-lookup-per-operation"
+	c.rule(R, "WriteStreamWithOptions reaches GetFormatSerializer, and ParseStreamWithOptions reaches GetFormatUnserializer, through exactly one call site on the static call paths of the module (counted transitively), and that site is not inside a loop")
+	for _, p := range [][2]string{
+		{"writer.(*Writer).WriteStreamWithOptions", "writer.GetFormatSerializer"},
+		{"reader.(*Reader).ParseStreamWithOptions", "reader.GetFormatUnserializer"},
+	} {
+		d := c.decl(R, p[0])
+		if d == nil {
+			continue
+		}
+		// number of lookups a call of fn performs (max over... the sum over its static call sites)
+		memo := map[string]int{}
+		var count func(dd *declInfo, depth int) int
+		count = func(dd *declInfo, depth int) int {
+			if v, ok := memo[dd.name]; ok {
+				return v
+			}
+			if depth > 6 {
+				return 0
+			}
+			memo[dd.name] = 0
+			n := 0
+			for _, cs := range callsIn(dd.pkg, dd.fd.Body) {
+				name := objName(cs.callee)
+				if name == p[1] {
+					n++
+					continue
+				}
+				if cs.callee.Pkg() == nil || !strings.HasPrefix(cs.callee.Pkg().Path(), modPath+"/") {
+					continue
+				}
+				fd, pk := c.P.FuncDecl(name)
+				if fd == nil || fd.Body == nil {
+					continue
+				}
+				n += count(&declInfo{fd: fd, pkg: pk, obj: cs.callee, name: name}, depth+1)
+			}
+			memo[dd.name] = n
+			return n
+		}
+		n := count(d, 0)
+		c.check(n == 1, R, p[0], c.P.Pos(d.fd.Pos()), "one lookup of the driver per operation",
+			fmt.Sprintf("%s reaches %s through %d call sites: the driver is resolved more than once (or never) during one operation, so a registration or removal between the phases changes the driver in mid-operation", p[0], p[1], n))
+	}
+}
+
+// writerTouchesOnlyCallersFile (C17): two concurrent WriteFile calls share nothing but the
+// directory. A scratch file whose name is not unique per call (process id, fixed suffix) is a
+// shared resource without a lock: the calls truncate and rename each other's file. Intermediate
+// files come from os.CreateTemp; every other file-system call of pkg/writer names the caller's path.
+func writerTouchesOnlyCallersFile(c *Ctx) {
+	const R = "writer-files-are-per-call"
+	c.rule(R, "in pkg/writer the path handed to os.Create, os.OpenFile, os.WriteFile, os.Rename or os.Remove is a string parameter of the enclosing function or the name of a file obtained from os.CreateTemp in that function; no path is put together from process-wide values")
+	pk := c.P.pkg("pkg/writer")
+	if pk == nil {
+		c.undecided(R, "anchor:pkg/writer", "-", "package not found")
+		return
+	}
+	n := 0
+	for _, file := range pk.Syntax {
+		for _, dd := range file.Decls {
+			fd, ok := dd.(*ast.FuncDecl)
+			if !ok || fd.Body == nil {
+				continue
+			}
+			obj, _ := pk.TypesInfo.Defs[fd.Name].(*types.Func)
+			if obj == nil {
+				continue
+			}
+			d := &declInfo{fd: fd, pkg: pk, obj: obj, name: objName(obj)}
+			params := map[types.Object]bool{}
+			for _, fl := range fd.Type.Params.List {
+				for _, nm := range fl.Names {
+					params[pk.TypesInfo.Defs[nm]] = true
+				}
+			}
+			// names of temp files: t.Name() where t comes from os.CreateTemp
+			temps := map[types.Object]bool{}
+			defs := singleDefs(pk, fd.Body)
+			for o, def := range defs {
+				if ce, isCall := ast.Unparen(def).(*ast.CallExpr); isCall {
+					if f, _ := typeutil.Callee(pk.TypesInfo, ce).(*types.Func); f != nil && f.FullName() == "os.CreateTemp" {
+						temps[o] = true
+					}
+				}
+			}
+			k := 0
+			for _, cs := range callsIn(pk, fd.Body) {
+				switch cs.callee.FullName() {
+				case "os.Create", "os.OpenFile", "os.WriteFile", "os.Rename", "os.Remove", "os.RemoveAll":
+				default:
+					continue
+				}
+				nargs := 1
+				if cs.callee.Name() == "Rename" {
+					nargs = 2
+				}
+				for ai := 0; ai < nargs && ai < len(cs.call.Args); ai++ {
+					k++
+					n++
+					a := chase(pk, defs, cs.call.Args[ai])
+					okPath := false
+					if o := objOf(pk, a); o != nil && params[o] {
+						okPath = true
+					}
+					if ce, isCall := ast.Unparen(a).(*ast.CallExpr); isCall {
+						if sel, isSel := ce.Fun.(*ast.SelectorExpr); isSel && sel.Sel.Name == "Name" && temps[objOf(pk, sel.X)] {
+							okPath = true
+						}
+					}
+					c.check(okPath, R, fmt.Sprintf("%s#%s@%d", d.name, cs.callee.Name(), k), c.P.Pos(cs.call.Pos()), "the caller's path or a per-call temporary",
+						fmt.Sprintf("%s hands %s the path %s, which is neither the caller's path nor the name of an os.CreateTemp file: concurrent calls writing into the same directory share that file and overwrite or rename each other's data", d.name, cs.callee.FullName(), exprText(c.P.Fset, cs.call.Args[ai])))
+				}
+			}
+		}
+	}
+	c.floor(R, 1, "os.Create in WriteFileWithOptions")
 }
